@@ -20,3 +20,10 @@ Theorem C07_no_takeover_of_equal_priority :
 Proof. exact takeover_yields_is_le. Qed.
 Print Assumptions C07_no_takeover_of_equal_priority.
 
+
+(* store calls answered within half a heartbeat interval never run into the time-outs of the validation read and of
+   the refresh (so neither loop counts a failure in fault-free operation), for every heartbeat interval *)
+Theorem C07_fast_store_never_times_out :
+  forall H lat, 0 < H -> 2 * lat + 1 < H -> lat < gen_val_read_timeout H /\ lat < gen_hb_update_timeout H.
+Proof. exact (fun H lat Hp Hl => conj (val_read_tolerates_fast_store H lat Hp Hl) (hb_update_tolerates_fast_store H lat Hp Hl)). Qed.
+Print Assumptions C07_fast_store_never_times_out.
